@@ -15,26 +15,58 @@ nothing that was substituted is scanned again.
 namespace Mdsort.Props
 open Mdsort Mdsort.Model
 
-/-- A back-reference `\M.N` (or `\N` = `\0.N`) denotes exactly the N-th capture of the M-th
-interpolating pattern recorded for the same rule - found from the rule's `match` sentinel,
-never from another rule - and is an error if that pattern or group does not exist. -/
+/-- `match_backref` is a double list lookup in `Proofs.ruleCaps before`.  NOTE (audit au2): `ruleCaps`
+(Proofs/Interp.lean) is defined by the same walk as `Model.matchBackref` (reverse, `findIdx?` of the last `match`
+sentinel, `take`, `filter isInterp`), so this statement only repackages the model; it is the bridge that lets
+`C12_interpolate` speak about capture lists.  That the lookup means "the N-th capture of the M-th interpolating
+pattern of the SAME rule, never another rule's, an error if absent" is `C12_backref_rule_local`,
+`C12_backref_ignores_other_rules` and `C12_backref_needs_sentinel` below, which are stated on an explicit
+decomposition `pre ++ [sentinel] ++ entries` of the match list. -/
 theorem C12_backref_lookup (before : MatchList) (br : Backref) :
     matchBackref before br = ((Proofs.ruleCaps before)[br.mi]?).bind (fun gs => gs[br.si]?) :=
   Proofs.matchBackref_eq before br
 
 /-- For every match list, macro table and template of the documented syntax, the C loop
-computes exactly the one-pass token substitution (including which templates are errors). -/
+computes exactly the one-pass token substitution (including which templates are errors).
+Hypotheses: `hdom` - the template is not of the form `\N.` followed by a non-digit (there `isbackref` hands
+the rest to `strtoul`, which accepts white space and a sign: `\1. 2`, `\1.-0`; such templates are interpolated
+by the code but nothing is proved about them); `hn` - captured texts and macro values hold no NUL (captures are
+slices of C strings, so this always holds of what `regexec` can return on a C string; `interpolate.go`'s fuel is
+the template length and is sufficient - implied by this equation, the specification has no fuel). -/
 theorem C12_interpolate (before : MatchList) (macros : Option (List (Bytes × Bytes))) (t : Bytes)
     (hdom : Spec.itokens t ≠ .undefined) (hn : Proofs.NulFree before macros) :
     Spec.interp (Proofs.ruleCaps before) macros t = some (interpolate before macros t) :=
   Proofs.interpolate_eq_spec before macros t hdom hn
 
-/-- Existing message content cannot make a label rule fail (or succeed): the existing
-X-Label value is joined in verbatim, only the configured strings are templates. -/
+/-- Existing message content cannot make a label rule fail (or succeed): whether `match_interpolate` of a
+`label` entry succeeds does not depend on the message.  (Only success / failure is compared here; WHAT value is
+set - the existing labels joined in verbatim - is `C12_label_value` below.) -/
 theorem C12_label_ignores_message (macros : Option (List (Bytes × Bytes))) (ml : MatchList) (i : Nat)
     (mh : Match) (hty : mh.ty = .label) (msgs1 msgs2 : Nat → Msg) :
     (matchInterpolate macros ml i mh msgs1).isSome = (matchInterpolate macros ml i mh msgs2).isSome :=
   Proofs.label_interpolation_ignores_message macros ml i mh hty msgs1 msgs2
+
+/-- The existing labels as `match_interpolate` reads them. -/
+def C12_existingLabels (m : Msg) : Bytes :=
+  match getHeader m (ofString "X-Label") with
+  | none => []
+  | some ls => (ls.intersperse [32]).flatten
+
+/-- (audit au2) What a `label "s"` entry sets: the existing `X-Label` values AS `message_get_header` RETURNS THEM
+(all occurrences, each unfolded and RFC 2047-decoded, joined by one space), one space, and the interpolation `v` of
+the configured string - the existing text is appended to, never interpolated; the whole is cut at its first NUL.
+Because the DECODED text is written back, an encoded newline in an existing label ends up raw in the header block:
+`C08_label_value_from_message_breaks_rewrite`. -/
+theorem C12_label_value (macros : Option (List (Bytes × Bytes))) (ml : MatchList) (i : Nat) (mh : Match)
+    (msgs : Nat → Msg) (hty : mh.ty = .label) (s v : Bytes) (hs : mh.strings = [s])
+    (hv : interpolate (ml.take i) macros s = some v) :
+    matchInterpolate macros ml i mh msgs =
+      some (mh, some (mh.part, setHeader (msgs mh.part) (ofString "X-Label")
+        (cstr ((if (C12_existingLabels (msgs mh.part)).isEmpty then C12_existingLabels (msgs mh.part)
+          else C12_existingLabels (msgs mh.part) ++ [32]) ++ v)))) := by
+  unfold matchInterpolate C12_existingLabels
+  simp only [hty, hs, matchInterpolate.add, hv]
+  split <;> simp_all
 
 /-! ## Non-vacuity -/
 
@@ -50,6 +82,33 @@ example :
       [92, 49, 45, 36, 123, 112, 97, 116, 104, 125, 92, 48, 92, 46]
     = some (some [117, 115, 101, 114, 45, 47, 109, 47, 110, 101, 119, 47, 49,
                   117, 115, 101, 114, 64, 120, 46]) := by
+  decide +kernel
+
+/-- (audit au2) The match list of the example above, by name. -/
+def C12_before : MatchList :=
+  [{ ty := .mtch, lno := 1, part := 0 },
+   { ty := .header, lno := 1, part := 0,
+     subs := [⟨[117, 115, 101, 114, 64, 120], some (0, 6)⟩, ⟨[117, 115, 101, 114], some (0, 4)⟩] }]
+
+/-- Both hypotheses of `C12_interpolate` on it (`NulFree`, template inside the documented syntax) ... -/
+example : Proofs.NulFree C12_before (some [(ofString "path", ofString "/m/new/1")]) ∧
+    Spec.itokens (ofString "\\1-${path}\\0\\.") ≠ .undefined := by
+  refine ⟨⟨by decide +kernel, ?_⟩, by decide +kernel⟩
+  intro ms h; cases h; decide +kernel
+
+/-- ... and the model side of its equation. -/
+example : interpolate C12_before (some [(ofString "path", ofString "/m/new/1")]) (ofString "\\1-${path}\\0\\.") =
+    some (ofString "user-/m/new/1user@x.") := by decide +kernel
+
+/-- Hypotheses and conclusions of the three `_is_error` theorems on concrete templates: `a-\2/b` (the pattern has
+groups 0 and 1 only), `a-${nosuch}/b`, `${path}` where no macro table exists, and the unterminated `a-${path`. -/
+example :
+    Proofs.Plain (ofString "a-") ∧ Proofs.CleanStart (ofString "/b") ∧ matchBackref C12_before ⟨0, 2⟩ = none ∧
+    interpolate C12_before none (ofString "a-\\2/b") = none ∧
+    (∀ c ∈ ofString "nosuch", c ≠ 125) ∧
+    interpolate C12_before (some [(ofString "path", [47])]) (ofString "a-${nosuch}/b") = none ∧
+    interpolate C12_before none (ofString "a-${path}") = none ∧
+    interpolate C12_before (some [(ofString "path", [47])]) (ofString "a-${path") = none := by
   decide +kernel
 
 /-- The template `\1.x` is outside the documented syntax. -/
@@ -398,5 +457,15 @@ example :
     Spec.mexpand false (fun _ => none) "x/${path}/y".toUTF8.toList = none ∧
     Spec.macroValue [{ name := [100], value := [49], sticky := true }] [100] = some [49] := by
   decide +kernel
+
+/-- (audit au2) `C12_label_ignores_message` / `C12_label_value` on hostile content: the existing label reads
+`\9 ${nosuch} ${path}`; `label "new"` succeeds and the text is written back as it is. -/
+def C12_hostileLabels : Msg := parseMessage (ofString "X-Label: \\9 ${nosuch} ${path}\n\nb\n")
+
+example :
+    (matchInterpolate (some [(ofString "path", [47])]) [{ ty := .mtch, lno := 1, part := 0 }, { ty := .label, lno := 1, part := 0, strings := [ofString "new"] }] 1
+      { ty := .label, lno := 1, part := 0, strings := [ofString "new"] } (fun _ => C12_hostileLabels)).map
+      (fun r => r.2.map fun p => (messageWrite p.2).1) =
+    some (some (ofString "X-Label: \\9 ${nosuch} ${path} new\n\nb\n")) := by decide +kernel
 
 end Mdsort.Props
